@@ -2,6 +2,7 @@
 C04 — exact accounting: no ghost keys, no leaked placeholders.
 -/
 import Lockable.Proofs.Frame
+import Lockable.Proofs.Closed
 namespace Lockable
 
 /-- some live handle (guard, pending acquisition, failed try before its clean-up, unpolled stream item) refers to key `k` -/
@@ -64,6 +65,12 @@ theorem C04_refs_exact (kind : Kind) (as : List Act) (k h : Nat) (m : Entry) :
     s.ent k = some m → (h ∈ m.refs ↔ hkey (s.hs h) = some k) := by
   intro s hm
   exact (inv_reachable kind as).refs k m hm h
+
+/-- C04 at the level of public API calls (transfer of `C04_keys_exact` through `api_reachable`) -/
+theorem C04_keys_exact_api (kind : Kind) (cs : List Call) (k : Nat) :
+    let a := cs.foldl (fun a c => (a.exec c).1) (Api.init kind)
+    k ∈ a.s.order ↔ (absVal a.s k ≠ none ∨ Referenced a.s k) :=
+  api_transfer kind (fun s => k ∈ s.order ↔ (absVal s k ≠ none ∨ Referenced s k)) (fun as => C04_keys_exact kind as k) cs
 
 /-- non-vacuity: a failed try on a held, valueless key; after the clean-up and the unlock nothing is left -/
 example :
